@@ -255,6 +255,7 @@ func (b *BloomSearchEngine) Start() {
 		return
 	}
 	b.started = true
+	verifPoint("start.spawn", 0, 0, nil)
 
 	b.wg.Add(2)
 	go b.ingestWorker()
@@ -282,13 +283,16 @@ func (b *BloomSearchEngine) Stop(ctx context.Context) error {
 	// deadline. The AfterFunc is dropped on a graceful finish, leaving
 	// flushCtx live.
 	stopAfter := context.AfterFunc(ctx, b.flushCancel)
+	verifPoint("stop.armed", 0, 0, nil)
 
 	b.stateMu.Lock()
 	b.stopped = true
+	verifPoint("stop.flagged", 0, 0, nil)
 	b.stateMu.Unlock()
 
 	// Signal workers to stop
 	b.cancel()
+	verifPoint("stop.canceled", 0, 0, nil)
 
 	// Wait for workers to finish with timeout
 	done := make(chan struct{})
@@ -301,9 +305,11 @@ func (b *BloomSearchEngine) Stop(ctx context.Context) error {
 	case <-done:
 		// Workers finished gracefully
 		stopAfter()
+		verifPoint("stop.ret_nil", 0, 0, nil)
 		return nil
 	case <-ctx.Done():
 		// Timeout occurred
+		verifPoint("stop.ret_deadline", 0, 0, nil)
 		return fmt.Errorf("shutdown timeout exceeded: %w", ctx.Err())
 	}
 }
